@@ -580,7 +580,7 @@ Section Generic.
   Proof.
     unfold grow_and_fund. intros H HI P.
     apply bind_ok in H as (W1 & E1 & H). apply bind_ok in H as (W2 & E2 & H).
-    assert (Hx : extra <= MAX_REALLOC) by (apply resize_spec in E2; lia).
+    assert (Hx : extra <= MAX_REALLOC) by (clear - E2; apply resize_spec in E2; lia).   (* clear: lia drags section hypotheses in *)
     eapply put_dist_inv in E1; [|exact HI|exact (P Hx)].
     eapply resize_inv in E2; [|exact E1].
     g_go H.
@@ -659,26 +659,25 @@ Section Generic.
     | H : negb _ = true |- _ => apply negb_true_iff in H
     end.
   Lemma rd_finalize_debt_inv cx W W' : rd_finalize_debt cx W = Ok W' -> inv W -> inv W'.
-  Proof using A_ext A_free A_dist R_debt_zero R_debt_alloc.
+  Proof.
     unfold rd_finalize_debt. intros H HI. do 7 (g_step H).
     - (* no collectible debt: only the flag *)
       eapply put_dist_inv in H; [exact H|eassumption|]. g_norm.
       eapply dist_wperm; [eassumption|]. eapply R_debt_zero; [eassumption|reflexivity].
     - eapply grow_and_fund_inv; [exact H|eassumption|]. intros Hx. g_norm.
       eapply dist_wperm; [eassumption|]. eapply R_debt_alloc; [eassumption|exact Hx|reflexivity].
-  Show Proof.
   Qed.
   Lemma rd_finalize_rewards_inv cx W W' : rd_finalize_rewards cx W = Ok W' -> inv W -> inv W'.
-  Proof using A_ext A_free A_dist R_rew_alloc.
+  Proof.
     unfold rd_finalize_rewards. intros H HI. do 10 (g_step H).
     eapply grow_and_fund_inv; [exact H|eassumption|]. intros Hx. g_norm.
     eapply dist_wperm; [eassumption|]. eapply R_rew_alloc; [eassumption|eassumption|exact Hx|reflexivity].
   Qed.
   Lemma rd_enable_write_off_inv cx W W' : rd_enable_write_off cx W = Ok W' -> inv W -> inv W'.
-  Proof using A_ext A_free A_dist R_wo_alloc.
+  Proof.
     unfold rd_enable_write_off. intros H HI. do 6 (g_step H). cbv zeta in H.
     apply bind_ok in H as (W1 & Ea & H). apply bind_ok in H as (W2 & Eb & H).
-    match type of Eb with resize _ _ _ (_ + ?x) = _ => assert (Hx : x <= MAX_REALLOC) by (apply resize_spec in Eb; lia) end.
+    match type of Eb with resize _ _ _ (_ + ?x) = _ => assert (Hx : x <= MAX_REALLOC) by (clear - Eb; apply resize_spec in Eb; lia) end.
     eapply put_dist_inv in Ea; [|eassumption|].
     2:{ g_norm. eapply dist_wperm; [eassumption|]. eapply R_wo_alloc; [eassumption|eassumption|exact Hx|reflexivity]. }
     eapply resize_inv in Eb; [|exact Ea].
@@ -900,8 +899,11 @@ End Generic.
      lv_step_wf                wf_lv v t -> lv_step v t v' t' -> wf_lv v' t'
      lv_le v t v' t'           windows fixed once their flag is set, flags stay set, every bit of t still set in t', length t <= length t'
      lv_le_refl, lv_le_trans, lv_step_le (lv_step v t v' t' -> lv_le v t v' t'), lv_le_range
-   generic preservation (Section Generic; A : key -> acct -> Prop with A_ext, A_free, A_dist)
-     inv A W := forall k, A k (get W k);  free_key, dist_key, wperm;  okw x (data that may be written where no distribution lives)
+   generic preservation (Section Generic; A : key -> acct -> Prop with A_ext, A_free, A_dist; R : the ledger updates allowed at a
+   distribution address, with one introduction hypothesis per lv_step rule: R_same, R_debt_zero, R_debt_alloc, R_rew_alloc, R_wo_alloc,
+   R_pay, R_wo, R_dist -- every lemma is generalised only over the rules its proof uses; instantiate R := lv_step with the ls_ lemmas)
+     inv A W := forall k, A k (get W k);  free_key A k, dist_key A R k d t, wperm A k x;  okw x (data that may be written where no
+     distribution lives)
      <primitive>_inv           write_data / put_dist (need wperm), try_initialize (okw; also yields free_key), credit, debit, resize,
                                sys_transfer(_core), sys_create_account_core, create_account, create_token_account, put_token,
                                tok_transfer(_core|_checked), tok_burn(_core), grow_and_fund (the realloc bound is handed to the side
@@ -909,6 +911,9 @@ End Generic.
      rd_<name>_inv (all 22), rd_process_inv, pp_<name>_inv (6), pp_process_inv, sw_initialize_inv, sw_buy_sol_inv, sw_process_inv
      exec_data_inv             any program id, any ixdata (top-level System / Token, rogue CPI, rogue buy), any stack height
      exec_ixs_inv              instruction lists of a transaction
+     quiet_rd ix / quiet d / quiet_ixs ixs     no PayDebt, WriteOff, DistributeRewards (at any CPI depth)
+     rd_process_inv_quiet, exec_data_inv_quiet, exec_ixs_inv_quiet, exec_tx_cases_quiet     the same theorems for quiet instructions:
+                               they need only R_same, R_debt_zero and the three R_*_alloc (no R_pay / R_wo / R_dist)
      exec_op_nontx_inv         OSetClock / OAirdrop / OMintTo / OCreateAta
      exec_tx_cases             exec_tx W t = (W', ok) -> inv A W -> W' = W \/ exists W1, inv A W1 /\ W' = purge W1
    ================================================================================================================== *)
